@@ -61,7 +61,7 @@ func (l *lockedBuf) String() string {
 // Pool runs cases on worker processes.
 type Pool struct {
 	exe          string
-	defaultStack bool          // confirm runs: Go's own stack limit
+	confirming   bool          // confirmation / replay runs: no shortened watchdog
 	Watchdog     time.Duration // per call, for inputs of a few kB
 	PerKiB       time.Duration // ... plus this much per KiB of input
 	mu           sync.Mutex
@@ -80,9 +80,6 @@ func newPool() (*Pool, error) {
 func (p *Pool) start() (*worker, error) {
 	cmd := exec.Command(p.exe)
 	cmd.Env = append(os.Environ(), "C05_WORKER=1", "GOTRACEBACK=all", "GOMAXPROCS=2")
-	if p.defaultStack {
-		cmd.Env = append(cmd.Env, "C05_DEFAULT_STACK=1")
-	}
 	in, err := cmd.StdinPipe()
 	if err != nil {
 		return nil, err
@@ -150,7 +147,7 @@ func (w *worker) dumpAndKill() string {
 func (p *Pool) budget(req *Req, n int) time.Duration {
 	w := p.Watchdog
 	p.mu.Lock()
-	if p.hangs >= 6 && !p.defaultStack {
+	if p.hangs >= 6 && !p.confirming {
 		w /= 4
 	}
 	p.mu.Unlock()
